@@ -28,8 +28,16 @@ key cells are equal (one partition) but distinguishable - signed zeros, bool / i
 and two key columns, None keys included; failure keys '<site>:key-columns:cell-changed' / ':dtype-changed'.
 Apply functions that modify their argument (op 'mutapply', see C12 / relational_common.mut_apply_cases): every
 output column of one window() call holds what its function gives on a FRESH plain list of the row's group.
+Same-name value vectors (op 'samename', relational_history, as in C12): two vectors named 'v' with different contents given to
+different aggregate arguments of one window() call; every row gets the textbook value over the vector that was PASSED, and window
+agrees with aggregate() called with the same arguments; failure keys 'window-same-name-vectors:...'.
+Repeat the call after a write (op 'rewrite', relational_history, as in C12): window, rewrite one key cell (or value cell) in place
+(column view, held view, t['k'][i], slice / mask write, table cell assignment; ordinary and hash-colliding old / new values
+-1/-2, 0/2**61-1, -1.0/-2.0; one key column or one of two), window again: oracle on the NEW contents and agreement with aggregate()
+on the rewritten table; failure keys 'window-after-write:<key|value>-cell-rewritten:<how>:stale-...'.
 """
 from relational_common import *  # noqa
+from relational_history import *  # noqa
 
 PID = 'C13'
 OP = 'window'
@@ -42,6 +50,8 @@ def cases(tier, seed):
     yield from seq_apply_cases(tier, OP)
     yield from exactmean_cases(tier)
     yield from mut_apply_cases(tier, OP)
+    yield from samename_cases(tier, OP)
+    yield from rewrite_cases(tier, OP)
 
 
 def descr_of(case):
@@ -180,6 +190,10 @@ def eval_exactmean(case):
 def evaluate(case):
     if case['op'] == 'repeat':
         return eval_repeat(PID, case)
+    if case['op'] == 'samename':
+        return eval_samename(PID, case)
+    if case['op'] == 'rewrite':
+        return eval_rewrite(PID, case)
     if case['op'] == 'seqapply':
         return eval_seqapply(case)
     if case['op'] == 'exactmean':
@@ -291,6 +305,8 @@ def _check(case, s, res, fails, descr, OP=OP, key_sigs=None):
 
 
 def nontrivial(case):
+    if case.get('op') in ('samename', 'rewrite'):
+        return history_signature(case)
     return agg_signature(case)
 
 
@@ -302,11 +318,14 @@ if __name__ == '__main__':
               'large-offset values vs an exact Fraction reference (relative 1e-9), as in C12; plus apply functions that use their argument as a '
               'list and means of big-int / Fraction / Decimal / float columns (vs Python sum/len in the element type and vs aggregate); key columns compared '
               'cell by cell at type + repr level and by dtype, over partitions whose key cells are equal but distinguishable (0.0/-0.0, True/1/1.0, 2/2.0); '
-              'apply functions that modify their argument, each vs the function on a fresh list. distinct = distinct (nk, mode, rows, groups, interleaved, '
+              'apply functions that modify their argument, each vs the function on a fresh list; two same-named vectors with different contents in one call; call / in-place cell write (hash-colliding values '
+              'included) / call again histories vs the oracle on the new contents and vs aggregate. distinct = distinct (nk, mode, rows, groups, interleaved, '
               'all-None group, None key, aggs, apply) signatures',
          bound=lambda tier: dict(agg_bound(tier, heavy=True),
                                  repeat_variants=['ext', 'view-name'] if tier == 'quick' else REPEAT_VARIANTS,
                                  precision_families=[f for f, _ in PRECISION_FAMILIES], precision_len=[2, 4 if tier == 'quick' else 5],
                                  seq_apply_functions=SEQ_APPLY_NAMES, exact_mean_families={f: [repr(x) for x in p] for f, p in EXACT_MEAN_FAMILIES},
-                                 exact_mean_len=[1, 3 if tier == 'quick' else 4], mutating_apply_functions=MUT_APPLY_NAMES),
+                                 exact_mean_len=[1, 3 if tier == 'quick' else 4], mutating_apply_functions=MUT_APPLY_NAMES,
+                                 same_name_vector_pairs=SAMENAME_HOWS, same_name_plans=len(SAMENAME_PLANS),
+                                 rewrite_writes=REWRITE_HOWS, rewrite_key_pairs=[p[0] for p in REWRITE_KEY_PAIRS], rewrite_value_pairs=[p[0] for p in REWRITE_VAL_PAIRS]),
          nontrivial=nontrivial)
